@@ -8,6 +8,7 @@ import (
 	"encoding/json"
 	"flag"
 	"fmt"
+	"math/big"
 	"os"
 	"path/filepath"
 	"runtime"
@@ -484,11 +485,26 @@ func (w *World) Replay(ob *Obligation, repo string) *ReplayResult {
 }
 
 func filterModel(m map[string]string) map[string]string {
-	out := map[string]string{}
-	for k, v := range m {
-		if strings.HasPrefix(k, "p.") || strings.HasPrefix(k, "cfg.") {
-			out[k] = truncate(v, 400)
+	return map[string]string{"model": renderModel(m)}
+}
+
+// smtInt parses an SMT-LIB integer / bit-vector literal.
+func smtInt(v string) (*big.Int, bool) {
+	v = strings.TrimSpace(v)
+	switch {
+	case strings.HasPrefix(v, "#x"):
+		n, ok := new(big.Int).SetString(v[2:], 16)
+		return n, ok
+	case strings.HasPrefix(v, "#b"):
+		n, ok := new(big.Int).SetString(v[2:], 2)
+		return n, ok
+	case strings.HasPrefix(v, "(-"):
+		n, ok := new(big.Int).SetString(strings.TrimSpace(strings.Trim(v[2:], "() ")), 10)
+		if ok {
+			n.Neg(n)
 		}
+		return n, ok
 	}
-	return out
+	n, ok := new(big.Int).SetString(v, 10)
+	return n, ok
 }
